@@ -138,13 +138,19 @@ end Polygon
 def iscloseZero (z : α) : Bool :=
   decide (Scalar.abs (z - lit 0) ≤ q 1 100000000 + q 1 100000 * Scalar.abs (lit 0 : α))
 
+/-- `np.isclose(z, 0, atol=tol)` (default `rtol = 1e-5`): `|z − 0| ≤ tol + rtol·|0|`.
+    Since /repo bab419e the out-of-plane switch of circles and ellipses uses
+    `tol = 1e-8 * size` (`size` = radius, resp. `max(a, b)`): relative to the shape. -/
+def iscloseZeroTol (z tol : α) : Bool :=
+  decide (Scalar.abs (z - lit 0) ≤ tol + q 1 100000 * Scalar.abs (lit 0 : α))
+
 namespace Circle
 
-/-- `Circle.is_inside` for one row: `points − centroid`; `norm ≤ radius ∧ isclose(z, 0)`
-    (the norm is the 3-D norm of the shifted point) -/
+/-- `Circle.is_inside` for one row: `points − centroid`;
+    `norm ≤ radius ∧ isclose(z, 0, atol=1e-8 * radius)` (the norm is the 3-D norm of the shifted point) -/
 def isInside1 (r : α) (c p : V3 α) : Bool :=
   let d := p - c
-  decide (V3.norm d ≤ r) && iscloseZero d.z
+  decide (V3.norm d ≤ r) && iscloseZeroTol d.z (q 1 100000000 * r)
 
 def isInside (r : α) (c : V3 α) (pts : List (V3 α)) : List Bool := pts.map (isInside1 r c)
 
@@ -162,13 +168,14 @@ end Circle
 namespace Ellipse
 
 /-- `Ellipse.is_inside` for one row, AS CODED:
-    `np.all((points − centroid) / [a, b, inf] <= 1, axis=-1) ∧ isclose(z, 0)`.
+    `np.all((points − centroid) / [a, b, inf] <= 1, axis=-1) ∧ isclose(z, 0, atol=1e-8 * max(a, b))`.
     The third comparison is `z / inf = ±0 ≤ 1`, true for every finite `z`.  This is a
     one-sided bounding-box test, not an ellipse test (known finding, cannot be repaired because
     `tests/test_ellipse.py::test_is_inside` asserts it). -/
 def isInside1 (a b : α) (c p : V3 α) : Bool :=
   let d := p - c
-  (decide (d.x / a ≤ lit 1) && decide (d.y / b ≤ lit 1) && true) && iscloseZero d.z
+  (decide (d.x / a ≤ lit 1) && decide (d.y / b ≤ lit 1) && true) &&
+    iscloseZeroTol d.z (q 1 100000000 * Scalar.max a b)
 
 def isInside (a b : α) (c : V3 α) (pts : List (V3 α)) : List Bool := pts.map (isInside1 a b c)
 
